@@ -72,7 +72,8 @@ def run(chk):
     if chk.want("R08.5"):
         from ..inherit import inherit
         inherit(chk, "R08.5", "c07", ["R07.7"])
-    chk.assume("rotation invariance as a numerical fact and the Clebsch-Gordan (Racah) formula itself are not decided")
+    chk.assume("rotation invariance as a numerical fact is not decided; the Clebsch-Gordan routine is compared with the Racah formula it cites "
+               "(R08.3 racah:*), the formula itself is taken from the reference")
     chk.assume("the installed _invariants .so may lag the .pyx source (Cython is not available to rebuild)")
 
 
